@@ -21,6 +21,7 @@ def run(c):
     r4(c)
     r5(c)
     r6(c)
+    r7(c)
 
 
 def r1(c):
@@ -466,3 +467,35 @@ def r6(c):
                      "applied to rbparser.ordering._compile_ordering)")
     c07.ordering_reverse_site(c, "C08.R6")
     c.count("functions")
+
+
+def r7(c):
+    repo = c.repo
+    c.rule("C08.R7", "the ordering compiler passes the rule's parameters through as declared: in rbparser.ordering._compile_ordering every compiled attribute named after a rule "
+                     "parameter (order_reverse, global, scope) is exactly attrs['params'][<that name>] — a parameter combined with another condition (e.g. switched off for rules "
+                     "not written in negated form) silently unpins the commands the rulebook pins with it")
+    m = repo.module("annet.annlib.rbparser.ordering")
+    fn = repo.func("annet.annlib.rbparser.ordering", "_compile_ordering")
+    c.count("functions")
+    pv = Provenance(fn)
+    n = 0
+    for d in ast.walk(fn):
+        if not isinstance(d, ast.Dict):
+            continue
+        for k, v in zip(d.keys, d.values):
+            if not (isinstance(k, ast.Constant) and isinstance(k.value, str)):
+                continue
+            vv = pv.resolve_alias(v)
+            if isinstance(vv, ast.Dict):
+                continue   # the enclosing record; its entries are visited on their own
+            def is_params(e):
+                e = pv.resolve_alias(e)
+                return isinstance(e, ast.Subscript) and isinstance(e.slice, ast.Constant) and e.slice.value == "params"
+            mentions = [x for x in ast.walk(vv) if isinstance(x, ast.Subscript) and isinstance(x.slice, ast.Constant) and is_params(x.value)]
+            if not mentions:
+                continue
+            n += 1
+            ok = vv is mentions[0] and mentions[0].slice.value == k.value
+            c.check("C08.R7", ok, repo.loc(m, v), f"_compile_ordering/{k.value}", f"compiled attribute `{k.value}` is `{norm(vv)[:70]}`, not the declared parameter attrs['params']['{k.value}'] itself",
+                    key_text=f"param-{k.value}")
+    c.floor("C08.R7", "parameter pass-throughs", n, 3)
